@@ -26,6 +26,7 @@ HIER = {   # exception -> ancestors
 
 # abstract string states
 ANY, STRIPPED, NS = 'str', 'stripped', 'stripped-nonempty'
+FLOATV = 'float'          # a float that may be nan or infinite (what fortran_float returns)
 
 
 def caught_by(exc, handler_type):
@@ -91,8 +92,18 @@ class ExcAnalysis(object):
         if c.keywords:
             raise AnalysisError('keyword call %s not modelled' % norm(c))
         f = c.func
+        if isinstance(f, ast.Name) and f.id in ('fortran_float', 'fortran_int') and f.id != self.f.name and len(c.args) >= 1 and getattr(self, 'prog', None):
+            # the sibling reader, summarised by its own escape set; fortran_float yields a float that may be nan or infinite
+            ra, st = self.expr(c.args[0], env)
+            if st is None: raise AnalysisError('%s() of a non-string value %s' % (f.id, norm(c.args[0])))
+            sub = ExcAnalysis(self.prog.func('fixed_format_file.' + f.id), ['s']); sub.prog = None
+            esc, _f = sub.run()
+            return ra | esc, (FLOATV if f.id == 'fortran_float' else None)
         if isinstance(f, ast.Name) and f.id in ('float', 'int') and len(c.args) == 1:
             ra, st = self.expr(c.args[0], env)
+            if st == FLOATV:
+                # int(nan) raises ValueError, int(inf) OverflowError; float(float) does not raise
+                return ra | (set(['ValueError', 'OverflowError']) if f.id == 'int' else set()), (FLOATV if f.id == 'float' else None)
             if st is None:
                 raise AnalysisError('%s() of a non-string value %s' % (f.id, norm(c.args[0])))
             return ra | {'ValueError'}, None
@@ -220,7 +231,7 @@ def rule_exc(run):
     prog = run.prog
     for name in ('fortran_float', 'fortran_int'):
         fi = prog.func('fixed_format_file.' + name)
-        an = ExcAnalysis(fi, ['s'])
+        an = ExcAnalysis(fi, ['s']); an.prog = prog
         if 's' not in fi.params:
             raise AnalysisError('%s has no parameter s' % name)
         esc, falls = an.run()
